@@ -44,6 +44,11 @@ pub trait Check: Sync {
     }
     fn families(&self, tier: Tier) -> Vec<&'static str>;
     fn gen(&self, seed: u64, family: &str, tier: Tier) -> Case;
+    /// like `gen`, but also told the base seed of the run, the run index and how many runs of the same
+    /// family precede this one (for families that enumerate a space instead of sampling it)
+    fn gen_indexed(&self, base_seed: u64, i: u64, family: &str, _family_index: u64, tier: Tier) -> Case {
+        self.gen(base_seed.wrapping_add(i), family, tier)
+    }
     /// runs in the forked child
     fn run(&self, case: &Case, fatal_fd: i32) -> ChildResult;
     fn default_runs(&self, tier: Tier) -> u64 {
@@ -302,14 +307,23 @@ pub struct Budget {
     pub child_timeout: Duration,
 }
 
+/// family of run i and the number of earlier runs of the same family
+pub fn family_of<'a>(fams: &[&'a str], i: u64) -> (&'a str, u64) {
+    let l = fams.len() as u64;
+    let fam = fams[(i % l) as usize];
+    let per_period = fams.iter().filter(|f| **f == fam).count() as u64;
+    let rank = fams[..(i % l) as usize].iter().filter(|f| **f == fam).count() as u64;
+    (fam, (i / l) * per_period + rank)
+}
+
 fn worker(check: &dyn Check, tier: Tier, base_seed: u64, k: usize, budget: &Budget, deadline: Instant) -> Summary {
     let fams = check.families(tier);
     let mut sum = Summary::default();
     let mut i = k as u64;
     while i < budget.runs && Instant::now() < deadline {
         let seed = base_seed.wrapping_add(i);
-        let fam = fams[(i as usize) % fams.len()];
-        let case = check.gen(seed, fam, tier);
+        let (fam, fam_idx) = family_of(&fams, i);
+        let case = check.gen_indexed(base_seed, i, fam, fam_idx, tier);
         let r = eval_case(check, &case, budget.child_timeout);
         sum.runs += 1;
         *sum.per_family.entry(fam.to_string()).or_insert(0) += 1;
